@@ -9,7 +9,7 @@ SPEC = dict(
     property='C02',
     groups=[
         dict(name='sm', harness='h_sm.cpp', tus=SM_TUS, models=MODELS, loop_bounds=DOMLOOPS(5),
-             instances=[I(e) for e in ['sm_enable', 'sm_enabled', 'sm_resume', 'sm_resumed', 'sm_ack', 'sm_request', 'sm_failed']]),
+             instances=[I(e) for e in ['sm_enable', 'sm_enabled', 'sm_resume', 'sm_resumed', 'sm_ack', 'sm_request', 'sm_failed', 'sm_failed_safe']]),
     ],
     bounds=[], assumptions=[], outside=[],
 )
